@@ -186,6 +186,11 @@ def threeway(repo: Repo, R, rule: str, hf: FuncInfo, nname: Optional[str]):
     if isinstance(last, ast.Return) and d:
         sign_ok = ast.unparse(last.value) in (f"1 if {d} > 0 else -1", f"-1 if {d} < 0 else 1")
     tol_ok = tol is not None and "EPSILON" in tol
+    # the tolerance is in units of the smaller of the two prefixes (as documented by EPSILON: 20 places after rescaling)
+    scaled = d is not None and nname is not None and ast.unparse(defs[d]) == f"({nname}({a}) - {nname}({b})).scaleb(-smaller)" and ast.unparse(defs.get("smaller", ast.Constant(None))) in (f"min({a}.prefix.value, {b}.prefix.value)", f"min({b}.prefix.value, {a}.prefix.value)")
+    R.check(scaled, rule, key_of(hf, "tolerance-relative-to-smaller-prefix"), hf.site,
+            f"the difference is rescaled to the smaller of the two prefixes before the 10**-EPSILON tolerance is applied: {scaled}",
+            why="with an absolute tolerance every pair of values below 1e-20 compares equal: 1*y == 2*y, zepto/atto values do not sort")
     R.check(conv and d is not None and zero_ok and sign_ok and tol_ok, rule, key_of(hf), hf.site,
             f"three-way helper: converts the right operand ({conv}); difference of the exact values `{ast.unparse(defs[d]) if d else None}`; |diff| within tolerance `{tol}` -> 0 ({zero_ok}); else sign of the difference ({sign_ok})",
             why="comparison results do not agree with the comparison of the exact values (sign flipped, tolerance missing or unscaled)")
@@ -216,6 +221,24 @@ def arithmetic_shape(repo: Repo, R):
         hits2 = pat.find(f"{helper}(lhs=Prefixed.new({l}), rhs={r})", m.node) + pat.find(f"{helper}(lhs={l}, rhs=Prefixed.new({r}))", m.node)
         R.check(bool(hits) and bool(hits2), rule, key_of(m), m.site, f"{meth} calls {helper}(lhs={l}, rhs={r}) for Prefixed and for converted scalar operands: {bool(hits) and bool(hits2)}",
                 why="reflected subtraction has its operands swapped")
+    # multiplication: Prefixed * Prefixed -> number product times prefix product; Prefixed * Prefix keeps the leftover decades
+    pm = ci.methods["__mul__"]
+    ok = bool(pat.find("(self.number * other.number * self.prefix * other.prefix).scale()", pm.node)) and bool(pat.find("Prefixed.new(self.number * Decimal(str(other)), self.prefix).scale()", pm.node))
+    R.check(ok, rule, key_of(pm), pm.site, f"__mul__: product of the numbers times the product of the prefixes, rescaled: {ok}", why="products are off by the prefix of one operand")
+    pr = repo.func(F_PREFIX, "Prefix.__rmul__")
+    d2 = au.local_defs(pr.node)
+    targ_ok = ast.unparse(d2.get("targ", ast.Constant(None))) == "self.value + other.prefix.value"
+    exp_ok = ast.unparse(d2.get("exptemp", ast.Constant(None))) == "e(targ)"
+    nn = d2.get("new_num")
+    want = ast.parse("other.number * Decimal(10) ** (targ - exptemp.symbol.value)", mode="eval").body
+    shift_ok = nn is not None and ast.unparse(nn) == ast.unparse(want)
+    if nn is not None and not shift_ok:
+        # equivalent spelling through scaleb with the same (positive) shift
+        shift_ok = ast.unparse(nn) == "other.number.scaleb(targ - exptemp.symbol.value)"
+    res_ok = bool(pat.find("Prefixed.new(new_num, exptemp.symbol)", pr.node))
+    R.check(targ_ok and exp_ok and shift_ok and res_ok, rule, key_of(pr), pr.site,
+            f"Prefixed * Prefix: target exponent = sum of the two exponents ({targ_ok}); nearest prefix e(targ) ({exp_ok}); number shifted by the leftover decades targ - nearest ({shift_ok}: `{ast.unparse(nn) if nn is not None else None}`); result under the nearest prefix ({res_ok})",
+            why="products whose exponents do not sum to a prefix (pairs with centi/deci/deca/hecto, or sums beyond +-24) are off by powers of ten")
     tp = repo.func(F_PREFIX, "to_prefixed")
     fl = any(isinstance(n, ast.If) and "(int, float)" in ast.unparse(n.test) and bool(pat.find("Prefixed(number=Decimal(str(v)))", ast.Module(n.body, []))) for n in au.walk_no_nested(tp.node))
     R.check(fl, rule, key_of(tp), tp.site, f"to_prefixed converts int/float through str() before Decimal (no binary-fraction digits): {fl}", why="0.1 becomes 0.1000000000000000055511151231257827...")
